@@ -24,10 +24,17 @@ example : winner ⟨"", [some "a", some "b", none], some "t", some "g", "d"⟩ =
           winner ⟨"o", [some "a"], some "t", some "g", "d"⟩ = "o" ∧
           winner ⟨"", [], none, some "g", "d"⟩ = "g" ∧ winner ⟨"", [none], none, none, "d"⟩ = "d" := by decide
 
-/-- **every attribute read in the code base, partial**: each site either uses a full resolver or is one of the recorded
-    reduced reads (complete regenerated table of attribute reads; a new reduced read breaks this theorem) -/
+/-- a written-attribute read plus the caller's own fall-back to the built-in default is the full resolution -/
+theorem C09_written_reads (s : Sources) : (if accWritten s ≠ "" then accWritten s else s.builtin) = winner s :=
+  accWritten_then_default s
+
+/-- **every attribute read in the code base, partial**: each site uses a resolver that consults everything an author can write
+    (`full`: with the built-in default; `written`: the caller supplies the default) or is one of the four recorded raw reads
+    of an identifying attribute (`lang` of the root, `name` of a social element).  The kind of each accessor is read off its
+    own body by the extractor; the table of reads is complete and regenerated; a new reduced read breaks this theorem. -/
 theorem C09_sites_partial :
-    ∀ s ∈ Gomjml.Gen.AttrSites.attrSites, s.2.2.1 = "full" ∨ (s.1, s.2.2.1, s.2.2.2) ∈ Gomjml.Expect.AttrSites.knownNonFull := by
+    ∀ s ∈ Gomjml.Gen.AttrSites.attrSites, s.2.2.1 = "full" ∨ s.2.2.1 = "written" ∨
+      (s.1, s.2.2.1, s.2.2.2) ∈ Gomjml.Expect.AttrSites.knownNonFull := by
   decide +kernel
 
 end Gomjml.Props.C09
